@@ -487,6 +487,18 @@ func (e *env) field(base Val, name string) Val {
 // arrayBase evaluates the operand of an index/slice expression; an array-typed struct field
 // (x.buf) is taken by address so that large arrays are never loaded as values
 func (e *env) arrayBase(x ast.Expr) Val {
+	if id, ok := x.(*ast.Ident); ok && e.pkg != nil {
+		// a package-level array variable: by address (never loaded as a value)
+		_, isVar := e.vars[id.Name]
+		_, isName := e.st.names[id.Name]
+		if !isVar && !(isName && e.useNames) {
+			if v, ok := e.pkg.Scope().Lookup(id.Name).(*types.Var); ok {
+				if _, isArr := v.Type().Underlying().(*types.Array); isArr {
+					return e.addrOf(x)
+				}
+			}
+		}
+	}
 	if sel, ok := x.(*ast.SelectorExpr); ok {
 		if _, isPkg := sel.X.(*ast.Ident); !isPkg || e.u.eng.importedPkg(e.pkg, sel.X.(*ast.Ident).Name) == nil || e.vars[sel.X.(*ast.Ident).Name].T != nil || e.useNames {
 			func() {
